@@ -1548,8 +1548,11 @@ int ov_pcm_seek_page(OggVorbis_File *vf,ogg_int64_t pos){
             if(bisect==0) goto seek_error;
             bisect-=CHUNKSIZE;
 
-            /* don't repeat/loop on a read we've already performed */
-            if(bisect<=begin)bisect=begin+1;
+            /* backed up to the start of the range: the page at begin
+               itself has not been examined on this path (a read from
+               begin always ends the search or advances begin), so read
+               from begin, not past it */
+            if(bisect<=begin+1)bisect=begin;
 
             /* seek and cntinue bisection */
             result=_seek_helper(vf,bisect);
@@ -1598,7 +1601,7 @@ int ov_pcm_seek_page(OggVorbis_File *vf,ogg_int64_t pos){
                    little bit, and try again */
                 end=result;
                 bisect-=CHUNKSIZE;
-                if(bisect<=begin)bisect=begin+1;
+                if(bisect<=begin+1)bisect=begin;
                 result=_seek_helper(vf,bisect);
                 if(result) goto seek_error;
               }else{
